@@ -62,6 +62,7 @@ K_EMPTY_NOLIMIT = 'C20/error-limit/not-evaluated-after-empty-response'
 K_CONF_NEG = 'C20/cache/confirmations-computed-from-expired-blockcount'
 K_PAGE_ORDER = 'C20/cache/block-page-served-in-insertion-order'
 K_CACHED_SUBSET = 'C20/cache/address-history-starts-at-whatever-is-cached'
+K_STALE_RECORD = 'C20/cache/address-record-computed-before-answer-is-stored'
 K_INDEX_ORDER = 'C20/cache/same-block-order-from-answer-position'
 K_PARTIAL_HISTORY = 'C20/cache/address-balance-summed-over-partial-history'
 
@@ -203,7 +204,7 @@ class Chain:
             c.add(bal)
         return c
 
-    def utxo_count_candidates(self, a, allow_empty=True):
+    def utxo_count_candidates(self, a, allow_empty=True, provider_flags=False):
         """numbers of unspent outputs of `a` derivable from (a prefix of) its confirmed history"""
         names = self.txs_of(a, True)
         c = set()
@@ -215,6 +216,9 @@ class Chain:
                     if o == a and self.spent_by(m, n) not in part:
                         n_un += 1
             c.add(n_un)
+            if provider_flags:
+                # providers that report the spent status hand out the chain's view, also for spends outside the prefix
+                c.add(sum(1 for m in part for n, (o, v) in enumerate(self.txs[m]['outs']) if o == a and self.spent_by(m, n) is None))
         return c
 
 
@@ -253,6 +257,8 @@ class World:
         self.epoch = 0
         self.spent_info = bool(case.get('spent_info'))
         self.partial_balances = {}
+        self.stale_balances = {}
+        self.pre_cached = (None, None)
         self.reg_whole = {}      # address -> [(sum, count)] of provider utxo answers that covered the whole address
         self.salt = 0
 
@@ -887,6 +893,28 @@ def _cached_history_sum(name):
     return bal, is_prefix
 
 
+def _stale_record_explains(callrec, name, info):
+    """Narrow shape of one known deviation: gettransactions tests `len(self.results)` after a nested blockcount()
+    look-up; when that look-up fails it has emptied `results`, the answer's transactions are not stored before the
+    address record is computed, and the record (balance, n_txs) describes what the cache held BEFORE the call.
+    True when this call is gettransactions for the address, a blockcount loop failed after the gettransactions loop
+    answered, and stored balance / n_txs equal the sum / number over exactly the previously cached transactions."""
+    W = _state['W']
+    c = W.c
+    if callrec['m'] != 'gettransactions' or W.pre_cached[0] != name or W.pre_cached[1] is None:
+        return False
+    ex = callrec['execs']
+    main = [i for i, r in enumerate(ex) if r['method'] == 'gettransactions' and not r['failed']]
+    if not main or not any(r['method'] == 'blockcount' and r['failed'] for r in ex[main[-1] + 1:]):
+        return False
+    pre = [m for m in c.txs_of(name, True) if m in W.pre_cached[1]]
+    bal = 0
+    for m in pre:
+        t = c.txs[m]
+        bal += sum(v for o, v in t['outs'] if o == name) - sum(i['value'] for i in t['ins'] if i['owner'] == name)
+    return bool(pre) and _same(info.get('balance'), bal) and info.get('n_txs') == len(pre)
+
+
 def check_address_records(callrec, col, case):
     """Provenance of every number in the stored address records (read through Service.getcacheaddressinfo)."""
     W = _state['W']
@@ -914,11 +942,16 @@ def check_address_records(callrec, col, case):
                 W.partial_balances.setdefault(addr, set()).add(bal)
             elif bal in W.partial_balances.get(addr, ()):
                 key = K_PARTIAL_HISTORY      # the record written earlier is still there, the cached set has grown since
+            elif _stale_record_explains(callrec, name, info):
+                key = K_STALE_RECORD
+                W.stale_balances.setdefault(addr, set()).add(bal)
+            elif bal in W.stale_balances.get(addr, ()):
+                key = K_STALE_RECORD
             col.violation(key, 'stored balance %s of address %s after %s: no provider reported it for the address and it is not '
                           'derivable from the history providers gave' % (_short(bal), name, callrec['m']),
                           dict(case, failing_call=callrec['index']), info, sorted(_stored_balance_candidates(addr, name))[:12])
         nu = info.get('n_utxos')
-        ok_n = c.utxo_count_candidates(name, allow_empty=(not seen_any) or info.get('n_txs') == 0) | {n_ for _, n_ in W.reg_whole.get(addr, [])}
+        ok_n = c.utxo_count_candidates(name, allow_empty=(not seen_any) or info.get('n_txs') == 0, provider_flags=W.spent_info) | {n_ for _, n_ in W.reg_whole.get(addr, [])}
         if nu is not None and nu not in ok_n:
             col.violation(None, 'stored utxo count %s of address %s after %s: the address never had that many unspent outputs '
                           'in any provider answer' % (_short(nu), name, callrec['m']),
@@ -1336,6 +1369,8 @@ def run_case(case, col):
                     cstate = _cache_state(W, m, spec)
                     args = _real_args(W, m, spec)
                     _state['bc_valid_before'] = _blockcount_cache_valid()
+                    if m == 'gettransactions':      # what the cache held for the address before this call
+                        W.pre_cached = (spec['addr'], _cache_view(spec['addr'])[0])
                     ret = getattr(srv, m)(*args)
             except BaseException as e:
                 if isinstance(e, (KeyboardInterrupt, SystemExit)):
